@@ -58,11 +58,15 @@ def native_crate(runner, ws, prop, name, deps, main_rs):
 
 
 def replay_lexer(runner, ws, prop, h, vals, rec):
-    """Build a real source text with one lexeme per raw token of the solver's sequence, run the
-    real `Lexer` (real logos DFA, no stub) on it natively and compare the delivered spans with the
-    reference scan."""
-    limit = int(re.search(r"<=\s*(\d+) raw tokens", h.get("bounds", "<= 8 raw tokens")).group(1))
-    classes = decode_lexer_stream(vals, limit)
+    """Build a real source text from the solver's assignment (initial comment depth d0, then the
+    raw-token sequence), run the real `Lexer` (real logos DFA, no stub) on it natively and compare
+    the delivered spans with the reference scan. A depth larger than the run can close behaves
+    like any other such depth, so d0 is replayed as min(d0, limit + 1) opening `/-`."""
+    m = re.search(r"at most (\d+) raw tokens|<=\s*(\d+) raw tokens", h.get("bounds", "<= 8 raw tokens"))
+    limit = int((m.group(1) or m.group(2)) if m else 8)
+    d0 = int.from_bytes(bytes(vals[0]), "little") if vals and len(vals[0]) == 8 else 0
+    stream_vals = vals[1:] if vals and len(vals[0]) == 8 else vals
+    classes = [4] * min(d0, limit + 1) + decode_lexer_stream(stream_vals, limit)
     src, spans = "", []
     for c in classes:
         lex = CLASS_TEXT[c]
@@ -70,6 +74,7 @@ def replay_lexer(runner, ws, prop, h, vals, rec):
         src += lex + ("" if c in (2, 3) else " ")
     expected = [list(spans[i]) for i in lexer_reference(classes)]
     decoded = {
+        "initial_comment_depth": d0,
         "raw_tokens": [CLASS_NAME[c] for c in classes],
         "source_text": src,
         "stray_close_at_depth0": any(classes[i] == 5 for i in lexer_reference(classes)),
